@@ -1,1 +1,55 @@
-From Ugo Require Import Byte.V1Conv.
+(* Property C11: bytecode in the version 1 format still runs the same program.
+   Status: PARTIAL.
+   Regenerated on every run (Gen/OpTable.v from opcodes.go, opv1/opcodes_v1.go, compiler.go):
+   the two opcode tables and MakeInstruction's byte layout; the table theorems below are
+   re-proved against them each time.
+   Full statement (kept as a definition, decided on every run by the validator reloc_ok on the
+   real converter's output for every function of every generated program, and by byte-identical
+   comparison of the model converter with the implementation): the converter maps every
+   well-formed version 1 instruction stream to a version 2 stream denoting the same offset-free
+   program, source map included. *)
+From Coq Require Import List ZArith Bool String Lia.
+From Ugo Require Import Base.Res Gen.OpTable Byte.Instr Byte.V1Conv.
+Import ListNotations.
+Local Open Scope Z_scope.
+
+Definition C11_conv_relocates_full : Prop :=
+  forall ins sm a,
+    abstract opcodes_v1 ins = Some a ->
+    exists ins2 sm2,
+      conv_comp_func ins sm = Ok (ins2, sm2) /\
+      abstract opcodes_v2 ins2 = Some a /\
+      abstract_srcmap opcodes_v2 ins2 sm2 = abstract_srcmap opcodes_v1 ins sm.
+
+(* version 1 and version 2 number the opcodes identically and differ only in the width of the
+   jump-class operands (2 -> 4 bytes): nothing else needs conversion *)
+Theorem C11_tables_agree : v1_v2_tables_agree = true.
+Proof. vm_compute. reflexivity. Qed.
+Print Assumptions C11_tables_agree.
+
+(* the bytes written by MakeInstruction are the big-endian layout of the operand widths *)
+Theorem C11_make_instruction_layout : layouts_agree = true.
+Proof. vm_compute. reflexivity. Qed.
+Print Assumptions C11_make_instruction_layout.
+
+(* exactly the five jump-class opcodes carry offsets *)
+Theorem C11_jump_class_ops : jump_ops = [12; 13; 14; 15; 34].
+Proof. vm_compute. reflexivity. Qed.
+Print Assumptions C11_jump_class_ops.
+
+(* a function with a jump behind another jump (the shape the unrepaired converter broke):
+   the converted stream denotes the same program *)
+Example C11_two_jumps :
+  let ins := [12; 0; 6;  13; 0; 9;  21;  12; 0; 0;  41] in   (* JUMP 6; JUMPFALSY 9; NULL; JUMP 0; TRUE *)
+  let sm := [(0, 100); (3, 101); (7, 102)] in
+  exists ins2 sm2, conv_comp_func ins sm = Ok (ins2, sm2) /\
+    reloc_ok ins sm ins2 sm2 = true /\
+    ins2 = [12; 0; 0; 0; 10;  13; 0; 0; 0; 15;  21;  12; 0; 0; 0; 0;  41] /\
+    sm2 = [(0, 100); (5, 101); (11, 102)].
+Proof. vm_compute. eexists; eexists; repeat split; reflexivity. Qed.
+
+(* malformed streams are errors, not panics (the v1 path of property C18) *)
+Example C11_bad_opcode : exists e, conv_comp_func [200] [] = Err e.
+Proof. vm_compute. eexists; reflexivity. Qed.
+Example C11_truncated : exists e, conv_comp_func [12; 0] [] = Err e.
+Proof. vm_compute. eexists; reflexivity. Qed.
